@@ -208,6 +208,8 @@ func checkC06(c *Ctx, r *Result, tier string) {
 		obs = append(obs, oc.tokenObligations(fn)...)
 		sortObligations(obs)
 		openByNorm := map[string]int{}
+		adopted := map[string]bool{}
+		adoptedByNorm := map[string]int{}
 		for _, ob := range obs {
 			if !ob.Discharged && c06Reviewed[ob.Site] == "" {
 				if nk := normKey(ob.Site); nk != "" {
@@ -227,19 +229,36 @@ func checkC06(c *Ctx, r *Result, tier string) {
 				}
 			}
 			nk := normKey(ob.Site)
-			if nk == "" || openByNorm[nk] != 1 || len(reviewedByNorm[nk]) != 1 || usedReviewed[reviewedByNorm[nk][0]] {
+			if nk == "" {
 				continue
 			}
-			// the entry's exact construct must be gone from this function
-			still := false
-			for _, o2 := range obs {
-				if o2.Site == reviewedByNorm[nk][0] {
-					still = true
+			// the entries whose exact construct is gone from this function; they must all carry the
+			// same argument (one invariant of one data structure, asserted at several places), and
+			// there must be at least as many of them as open obligations of this shape: merging two
+			// reviewed assertions into one keeps the argument, adding a new assertion does not.
+			var gone []string
+			same := true
+			for _, site := range reviewedByNorm[nk] {
+				if c06Reviewed[site] != c06Reviewed[reviewedByNorm[nk][0]] {
+					same = false
+				}
+				still := false
+				for _, o2 := range obs {
+					if o2.Site == site {
+						still = true
+					}
+				}
+				if !still && !usedReviewed[site] && !adopted[site] {
+					gone = append(gone, site)
 				}
 			}
-			if !still {
-				ob.Site = reviewedByNorm[nk][0]
+			sort.Strings(gone)
+			if !same || len(gone) == 0 || openByNorm[nk] > len(gone)+adoptedByNorm[nk] {
+				continue
 			}
+			ob.Site = gone[0]
+			adopted[gone[0]] = true
+			adoptedByNorm[nk]++
 		}
 		for _, ob := range obs {
 			r.Obligations++
